@@ -18,6 +18,7 @@ def gen_cases(chk):
     cases = enggen.pattern_cases(chk, 3 if quick else 4)
     cases += enggen.set_cases(chk)
     cases += enggen.role_order_cases()
+    cases += enggen.time_mode_cases()
     cases += enggen.random_cases(chk, 1200 if quick else 15000)
     for i, c in enumerate(cases):
         if i % 2 == 0:
